@@ -393,7 +393,11 @@ func (fr *frame) doCall(call *ssa.CallCommon, st *State, pos token.Pos, site ssa
 		if fc := c.prog.Contracts.FuncTys[named.Obj().Pkg().Path()+"::"+named.Obj().Name()]; fc != nil {
 			names := []string{}
 			for i := 0; i < sig.Params().Len(); i++ {
-				names = append(names, sig.Params().At(i).Name())
+				n := sig.Params().At(i).Name()
+				if n == "" || n == "_" {
+					n = fmt.Sprintf("arg%d", i) // unnamed parameters of the func type
+				}
+				names = append(names, n)
 			}
 			extra := map[string]Val{"self": fv}
 			return fr.applyContract(fc, "functype "+named.Obj().Name(), names, args, extra, resultTypes(sig), st, pos, c.declaredWrites(fc), sig)
